@@ -103,6 +103,10 @@ class C20Matplotlib1D(Harness):
         for kind in ("bar", "line"):
             yield f"mpl-{kind}-tick-handler-xlim", dict(kind=kind, density=False, cumulative=False, errors=False, override=False, values=False, ticks=None, handler=True)
         yield "mpl-bar-2d", dict(kind="bar", wrongdim=True, density=False, cumulative=False, errors=False, override=False, values=False, ticks=None)
+        # the same drawing reached through the public entry points: plot(h, kind), h.plot(kind), h.plot.<kind>()
+        for kind in ("scatter", "line"):
+            for route in ("plot", "proxy_call", "proxy_attr"):
+                yield f"mpl-{kind}-d0-c0-via-{route}", dict(kind=kind, density=False, cumulative=False, errors=False, override=False, values=False, ticks=None, route=route)
 
     def declare(self, cx, p):
         x = {"f": declare_cells(cx, "f", [2]), "q": declare_cells(cx, "q", [2]), "e": declare_edges(cx, "e", 2)}
@@ -138,7 +142,15 @@ class C20Matplotlib1D(Harness):
 
             kw["tick_handler"] = handler
             kw["xlim"] = (x["e"][0] - 1.0, x["e"][2] + 2.0)
-        r = E.attempt(getattr(mpl, p["kind"]), h, **kw)
+        route = p.get("route")
+        if route == "plot":
+            r = E.attempt(E.mod("physt.plotting").plot, h, p["kind"], backend="matplotlib", **kw)
+        elif route == "proxy_call":
+            r = E.attempt(lambda: h.plot(p["kind"], backend="matplotlib", **kw))
+        elif route == "proxy_attr":
+            r = E.attempt(lambda: getattr(h.plot, p["kind"])(backend="matplotlib", **kw))
+        else:
+            r = E.attempt(getattr(mpl, p["kind"]), h, **kw)
         obs = {"after": full(E, h), "before": before, "handler_calls": [[_tl(v) for v in c] for c in seen_by_handler]}
         if isinstance(r, Raised):
             obs["op"] = {"raised": r}
@@ -422,6 +434,9 @@ class C20Common(Harness):
             yield f"dispatch-bad-{bad}", dict(kind="dispatch", bad=bad)
         for unit in ("sec", "min"):
             yield f"ticks-{unit}", dict(kind="ticks", unit=unit)
+        # levels given as strings ("2min", "m", "3s", "4mins") are parsed to the same (unit, multiple) pairs
+        for text, unit, kc in (("2min", "min", 2), ("m", "min", 1), ("4mins", "min", 4), ("3s", "sec", 3), ("sec", "sec", 1)):
+            yield f"ticks-str-{text}", dict(kind="ticks", unit=unit, levelstr=text, kconst=kc)
         yield "ticks-edge", dict(kind="ticks", unit="edge")
         yield "ticks-center", dict(kind="ticks", unit="center")
 
@@ -437,6 +452,8 @@ class C20Common(Harness):
             if cx.sym:
                 unit = {"sec": 1, "min": 60}.get(p["unit"], 1)
                 cx.assume(x["lo"] < x["hi"], x["lo"] >= -5 * unit, x["lo"] <= 5 * unit, cx.t(x["hi"]) - cx.t(x["lo"]) <= 5 * unit * cx.t(x["k"]))
+                if p.get("kconst"):
+                    cx.assume(cx.t(x["k"]) == p["kconst"])
         return x
 
     def drive(self, E, p, x):
@@ -503,6 +520,13 @@ class C20Common(Harness):
             th = common.TimeTickHandler()
             unit = p["unit"]
             level = (unit, 0) if unit in ("edge", "center") else (unit, x["k"])
+            if p.get("levelstr"):
+                level = E.attempt(th.parse_level, p["levelstr"])
+                if isinstance(level, Raised):
+                    obs["op"] = {"raised": level}
+                    obs["after"] = full(E, h)
+                    return obs
+                obs["parsed_level"] = [level[0], level[1]]
             r = E.attempt(th.get_time_ticks, h, level, x["lo"], x["hi"])
             obs["op"] = {"raised": r} if isinstance(r, Raised) else "ok"
             if not isinstance(r, Raised):
@@ -573,6 +597,8 @@ class C20Common(Harness):
             if len(ticks) == 2:
                 yield "tick_values", z3.And([cx.eq(t, (e[j] + e[j + 1]) / 2) for j, t in enumerate(ticks)])
             return
+        if p.get("levelstr"):
+            yield "level_string_parsed", obs["parsed_level"][0] == p["unit"] and obs["parsed_level"][1] == p["kconst"]
         unit = {"sec": 1, "min": 60}[p["unit"]]
         step = z3.ToReal(cx.t(x["k"]) * unit)
         lo, hi = cx.t(x["lo"]), cx.t(x["hi"])
